@@ -18,6 +18,7 @@ Max(a, b) == IF a > b THEN a ELSE b
 \* ---------------------------------------------------------------- verdict plumbing
 \* R(s, f): result of a handler: new state and number of failed clauses
 R(s, f) == [s |-> s, f |-> f]
+RF(f, s) == [s |-> s, f |-> f]
 \* evaluated for its side effect (one line per failing clause); the driver de-duplicates
 Fail(name, line, detail) == IF PrintT(<<"FAIL", name, line, detail>>) THEN 1 ELSE 1
 Chk(name, cond, line, detail) == IF cond THEN 0 ELSE Fail(name, line, detail)
@@ -25,13 +26,13 @@ Chk(name, cond, line, detail) == IF cond THEN 0 ELSE Fail(name, line, detail)
 \* ---------------------------------------------------------------- state
 NoSess == [ech |-> -1, pch |-> -1, st |-> "none"]
 NewSess == [ech |-> -1, pch |-> -1,
-            eBegun |-> FALSE, pBegun |-> FALSE, eEnded |-> FALSE, pEnded |-> FALSE, pEndErr |-> "", pEndedBeforeE |-> FALSE,
+            eBegun |-> FALSE, pBegun |-> FALSE, eEnded |-> FALSE, pEnded |-> FALSE, pEndErr |-> "", pEndedBeforeE |-> FALSE, name |-> "",
             initOut |-> 0, framesOut |-> 0, delsOut |-> 0, lastDid |-> -1,
             peerNII |-> 0, peerWin |-> 0, devWin |-> 0,          \* window last advertised by the peer / as the code computes it
             pNoi |-> 0, framesInSince |-> 0, pBeginSeen |-> FALSE,
             winBlocked |-> FALSE]
 NewLink == [ech |-> -1, pch |-> -1, eh |-> -1, ph |-> -1, name |-> "", eutSender |-> TRUE,
-            eAtt |-> FALSE, pAtt |-> FALSE, eDet |-> FALSE, pDet |-> FALSE, pClosed |-> FALSE, pDetErr |-> "", touched |-> FALSE, pDetFirst |-> FALSE,
+            eAtt |-> FALSE, pAtt |-> FALSE, eDet |-> FALSE, pDet |-> FALSE, pClosed |-> FALSE, pDetErr |-> "", touched |-> FALSE, pDetFirst |-> FALSE, errTold |-> FALSE,
             snd |-> 2, rcv |-> 0, mmsP |-> -1,
             \* sender role (EUT sends)
             idc |-> 0, dcS |-> 0, limit |-> -1, drainOwed |-> FALSE, echoOwed |-> FALSE, inDel |-> FALSE, curDid |-> -1,
@@ -50,7 +51,7 @@ InitState == [side |-> "client", sc |-> 0, last |-> "Init", now |-> 0,
   phdr |-> "none", popen |-> FALSE, pclose |-> FALSE, pcloseErr |-> "", pcloseHeard |-> FALSE, peof |-> FALSE, illegal |-> FALSE, garbage |-> FALSE,
   oblClose |-> FALSE, openRet |-> "none", closeRet |-> "none", hook |-> FALSE,
   emfs |-> 512, pmfs |-> 512, echmax |-> 65535, pchmax |-> 65535, eidle |-> -1, pidle |-> -1, lastE |-> 0, lastP |-> 0, openAt |-> -1,
-  ss |-> <<>>, ls |-> <<>>, pendCfg |-> <<>>]
+  ss |-> <<>>, ls |-> <<>>, pendCfg |-> <<>>, pendSess |-> <<>>]
 
 \* index of the first element of seq satisfying P, 0 if none
 FirstIdx(seq, P(_)) == IF \E i \in DOMAIN seq : P(seq[i]) THEN CHOOSE i \in DOMAIN seq : P(seq[i]) /\ \A j \in 1..(i - 1) : ~P(seq[j]) ELSE 0
@@ -70,6 +71,17 @@ ConnUp(s) == Listening(s) /\ s.popen /\ s.eopens = 1 /\ ~s.pclose /\ ~s.peof /\ 
 OpenShouldSucceed(s) == s.phdr = "amqp" /\ s.popen /\ ~s.illegal
 
 \* ---------------------------------------------------------------- EUT frames
+\* a sender link that has a message waiting although window and credit allow it
+Stuck(s, k) ==
+  LET y == s.ls[k] i == SessByE(s, y.ech) IN
+  IF ~(y.eutSender /\ LinkLiveE(y) /\ y.pAtt /\ ~y.pDet /\ y.sendsIssued > y.delsDone /\ i > 0) THEN "no" ELSE
+  LET x == s.ss[i]
+      winStrict == x.pBegun /\ ~x.pEnded /\ (x.initOut + x.framesOut) - x.peerNII < x.peerWin
+      credit == y.inDel \/ (y.limit >= 0 /\ y.dcS < y.limit)
+  IN IF ~LiveE(x) \/ ~x.pBegun \/ x.pEnded THEN "no"
+     ELSE IF winStrict /\ credit THEN (IF x.devWin > 0 THEN "stuck" ELSE "stuck_dev_closed")
+     ELSE IF ~winStrict THEN "window" ELSE "credit"
+
 SetS(s, i, x) == [s EXCEPT !.ss[i] = x]
 SetL(s, k, y) == [s EXCEPT !.ls[k] = y]
 Illegal(s) == [s EXCEPT !.illegal = TRUE]
@@ -94,9 +106,9 @@ H_EBegin(s, r, l) ==
       dup == \E i \in DOMAIN s.ss : s.ss[i].ech = r.ch /\ LiveE(s.ss[i])
       ans == IF f.rch >= 0 THEN LastIdx(s.ss, LAMBDA x : x.pch = f.rch /\ x.pBegun /\ ~x.eBegun) ELSE 0
       base == IF ans > 0 THEN s.ss[ans] ELSE NewSess
-      x == [base EXCEPT !.ech = r.ch, !.eBegun = TRUE, !.initOut = f.noi, !.peerNII = f.noi]
+      x == [base EXCEPT !.ech = r.ch, !.eBegun = TRUE, !.initOut = f.noi, !.peerNII = f.noi, !.name = IF s.pendSess # <<>> THEN Head(s.pendSess) ELSE ""]
       ss2 == IF ans > 0 THEN [s.ss EXCEPT ![ans] = x] ELSE Append(s.ss, x)
-  IN R([s EXCEPT !.ss = ss2],
+  IN R([s EXCEPT !.ss = ss2, !.pendSess = IF @ # <<>> THEN Tail(@) ELSE @],
          Chk("C11_ChannelUnique", ~dup, l, "")
        + Chk("C17_ChannelMax", r.ch <= (IF s.popen THEN Min(s.echmax, s.pchmax) ELSE s.echmax), l, "")
        + Chk("C11_BeginAnswersKnown", f.rch < 0 \/ ans > 0, l, ""))
@@ -104,8 +116,9 @@ H_EBegin(s, r, l) ==
 H_EEnd(s, r, l) ==
   LET i == SessByE(s, r.ch) IN
   IF i = 0 \/ ~LiveE(s.ss[i]) THEN R(s, Fail("C13_EndAtMostOnce", l, ""))
-  ELSE R([s EXCEPT !.ss[i].eEnded = TRUE,
-                   !.ls = [k \in DOMAIN s.ls |-> IF s.ls[k].ech = r.ch /\ LinkLiveE(s.ls[k]) THEN [s.ls[k] EXCEPT !.eDet = TRUE] ELSE s.ls[k]]], 0)
+  ELSE LET fl == Chk("C13_Flush", ~(ConnUp(s) /\ \E k \in DOMAIN s.ls : s.ls[k].ech = r.ch /\ Stuck(s, k) = "stuck"), l, "end") IN
+       RF(fl, [s EXCEPT !.ss[i].eEnded = TRUE,
+                   !.ls = [k \in DOMAIN s.ls |-> IF s.ls[k].ech = r.ch /\ LinkLiveE(s.ls[k]) THEN [s.ls[k] EXCEPT !.eDet = TRUE] ELSE s.ls[k]]])
 
 H_EAttach(s, r, l) ==
   LET f == r.f i == SessByE(s, r.ch) IN
@@ -130,7 +143,9 @@ H_EDetach(s, r, l) ==
   LET k == LinkByE(s, r.ch, r.f.h) IN
   IF k = 0 \/ ~LinkLiveE(s.ls[k]) THEN R(s, Fail("C13_DetachAtMostOncePerAttach", l, ""))
   ELSE R([s EXCEPT !.ls[k].eDet = TRUE],
-         Chk("C13_DetachInKind", ~s.ls[k].pDet \/ ~s.ls[k].pClosed \/ r.f.closed, l, ""))
+         Chk("C13_DetachInKind", ~s.ls[k].pDet \/ ~s.ls[k].pClosed \/ r.f.closed, l, "")
+         \* what the application had queued on the link and could be sent goes out before the detach
+       + Chk("C13_Flush", ~(ConnUp(s) /\ Stuck(s, k) = "stuck"), l, "detach"))
 
 \* the frame's link must be attached by the EUT and not yet detached
 ELink(s, r) == LET k == LinkByE(s, r.ch, r.f.h) IN IF k > 0 /\ LinkLiveE(s.ls[k]) THEN k ELSE 0
@@ -288,7 +303,7 @@ H_PAttach(s, r, l) ==
 H_PDetach(s, r, l) ==
   LET k == LinkByP(s, r.ch, r.f.h) IN
   IF k = 0 \/ s.ls[k].pDet THEN R(Illegal(s), 0)
-  ELSE R(SetL(s, k, [s.ls[k] EXCEPT !.pDet = TRUE, !.pClosed = r.f.closed, !.pDetErr = r.f.err, !.pDetFirst = ~s.ls[k].eDet]), 0)
+  ELSE R(SetL(s, k, [s.ls[k] EXCEPT !.pDet = TRUE, !.pClosed = r.f.closed, !.pDetErr = r.f.err, !.pDetFirst = ~s.ls[k].eDet, !.touched = FALSE]), 0)
 
 H_PFlow(s, r, l) ==
   LET f == r.f i == SessByP(s, r.ch) IN
@@ -348,10 +363,12 @@ H_PFrame(s, r, l) ==
 H_PHeader(s, r, l) == R([s EXCEPT !.phdr = IF s.phdr = "none" THEN r.kind ELSE "twice"], 0)
 
 \* ---------------------------------------------------------------- application
+SessName(scope) == scope      \* the scope string of a session call ("s:<name>") identifies the session
 LinkByName(s, name, wantSender) == LastIdx(s.ls, LAMBDA y : y.name = name /\ y.eAtt /\ y.eutSender = wantSender)
 
 H_ApiCall(s, r, l) ==
   IF r.op \in {"open", "accept"} THEN R([s EXCEPT !.openRet = "pending"], 0)
+  ELSE IF r.op \in {"begin", "accept_session"} THEN R([s EXCEPT !.pendSess = Append(@, r.scope)], 0)
   ELSE IF r.op \in {"attach_receiver", "accept_link"} THEN R([s EXCEPT !.pendCfg = Append(@, [name |-> r.lname, credit |-> IF "credit" \in DOMAIN r.args THEN r.args.credit ELSE -1,
                                                                                                  autoAcc |-> IF "auto_accept" \in DOMAIN r.args THEN r.args.auto_accept ELSE FALSE])], 0)
   ELSE IF r.op \in {"send", "send_batchable"} THEN
@@ -391,6 +408,7 @@ H_RecvRet(s, r, l) ==
          + Chk("C09_Enforced", y.accepted + 1 <= y.limitMax - y.idcP, l, "")
          + Chk("C10_Contradiction", ~\E n \in 1..(j - 1) : y.inq[n].contra /\ y.inq[n].m = r.res.m, l, ""))
 
+PeerDetachedWithError(s, name) == LastIdx(s.ls, LAMBDA y : y.name = name /\ y.eAtt /\ y.pDet /\ y.pDetFirst /\ y.pDetErr # "" /\ ~y.errTold)
 H_ApiRet(s, r, l) ==
   IF r.op \in {"open", "accept"}
   THEN R([s EXCEPT !.openRet = IF r.res.ok THEN "ok" ELSE r.res.class], Chk("C12_OpenResult", ~r.res.ok \/ OpenShouldSucceed(s), l, ""))
@@ -402,6 +420,18 @@ H_ApiRet(s, r, l) ==
          + Chk("C12_CloseResult_Clean", ~(s.pcloseHeard /\ s.pcloseErr = "" /\ ~s.illegal /\ s.ecloses = 1 /\ ~s.ecloseErr /\ ~s.garbage)
                                         \/ r.res.ok \/ (r.res.class = "RemoteClosed" /\ r.res.cond = ""), l, r.res.class)
          + Chk("C13_TeardownWaits", ~(r.op = "close" /\ r.res.ok) \/ s.pcloseHeard \/ s.peof, l, "close"))
+  ELSE IF r.op \in {"detach", "close_link"} THEN
+       LET k == LastIdx(s.ls, LAMBDA y : y.name = r.lname /\ y.eAtt) IN
+       IF k = 0 THEN R(s, 0) ELSE
+       LET y == s.ls[k] IN
+       R(SetL(s, k, [y EXCEPT !.errTold = TRUE]),
+           Chk("C13_TeardownWaits", ~r.res.ok \/ y.pDet \/ ~ConnUp(s), l, r.op)
+         + Chk("C13_PeerError", ~(y.pDet /\ y.pDetErr # "" /\ ~y.errTold) \/ (~r.res.ok /\ r.res.cond = y.pDetErr), l, r.op))
+  ELSE IF r.op = "end" THEN
+       LET i == LastIdx(s.ss, LAMBDA x : x.eBegun /\ x.name = SessName(r.scope)) IN
+       IF i = 0 THEN R(s, 0) ELSE
+       R(s, Chk("C13_TeardownWaits", ~r.res.ok \/ s.ss[i].pEnded \/ ~ConnUp(s), l, "end")
+          + Chk("C13_PeerError", ~(s.ss[i].pEnded /\ s.ss[i].pEndErr # "") \/ (~r.res.ok /\ r.res.cond = s.ss[i].pEndErr), l, "end"))
   ELSE IF r.op \in {"attach_receiver", "accept_link"} THEN
        LET k == LinkByName(s, r.lname, FALSE) IN
        IF k = 0 \/ ~r.res.ok THEN R(s, 0) ELSE R(SetL(s, k, [s.ls[k] EXCEPT !.cfgActive = TRUE]), 0)
@@ -409,6 +439,10 @@ H_ApiRet(s, r, l) ==
   ELSE IF r.op = "dispose" /\ r.res.ok THEN
        LET k == LinkByName(s, r.lname, FALSE) IN
        IF k = 0 THEN R(s, 0) ELSE R(SetL(s, k, [s.ls[k] EXCEPT !.held = Max(0, @ - 1)]), 0)
+  ELSE IF r.op \in {"send", "send_batchable", "recv"} /\ ~r.res.ok /\ r.lname # "" /\ PeerDetachedWithError(s, r.lname) > 0 THEN
+       LET k == PeerDetachedWithError(s, r.lname) IN
+       R(SetL(s, k, [s.ls[k] EXCEPT !.errTold = TRUE, !.sendsIssued = IF @ > s.ls[k].delsDone THEN @ - 1 ELSE @]),
+         Chk("C13_PeerError", r.res.cond = s.ls[k].pDetErr, l, r.op))
   ELSE IF r.op \in {"send", "await_outcome"} /\ r.res.ok THEN
        LET k == LinkByName(s, r.lname, TRUE)
            c == IF r.op = "send" THEN r.call ELSE r.of IN
@@ -424,17 +458,6 @@ H_ApiRet(s, r, l) ==
   ELSE R(s, 0)
 
 \* ---------------------------------------------------------------- quiescence: obligations
-\* a sender link that has a message waiting although window and credit allow it
-Stuck(s, k) ==
-  LET y == s.ls[k] i == SessByE(s, y.ech) IN
-  IF ~(y.eutSender /\ LinkLiveE(y) /\ y.pAtt /\ ~y.pDet /\ y.sendsIssued > y.delsDone /\ i > 0) THEN "no" ELSE
-  LET x == s.ss[i]
-      winStrict == x.pBegun /\ ~x.pEnded /\ (x.initOut + x.framesOut) - x.peerNII < x.peerWin
-      credit == y.inDel \/ (y.limit >= 0 /\ y.dcS < y.limit)
-  IN IF ~LiveE(x) \/ ~x.pBegun \/ x.pEnded THEN "no"
-     ELSE IF winStrict /\ credit THEN (IF x.devWin > 0 THEN "stuck" ELSE "stuck_dev_closed")
-     ELSE IF ~winStrict THEN "window" ELSE "credit"
-
 H_Quiesce(s, r, l) ==
   LET up == ConnUp(s) /\ ~s.hook          \* a task parked at an armed schedule point is not expected to make progress
       stuck == {k \in DOMAIN s.ls : up /\ Stuck(s, k) \in {"stuck", "stuck_dev_closed"}}
